@@ -82,7 +82,8 @@ TEXT.update({
         text="Lean theorems for every reachable state of the Worker transition system (any number of holders, any interleaving of Do/done with the watcher and the "
              "function): at most one live function instance; while any done function is outstanding an instance exists, runs and its stop channel is open; stop is closed "
              "only when no holder is outstanding; a Do cannot run while the instance is stopping and the next Do after the watcher finished starts a fresh instance; with no "
-             "holder left the system is never stuck before the instance is gone. Tied by concurrent trace acceptance of hook events.",
+             "holder left the system is never stuck before the instance is gone, and (leads-to theorem, weak fairness, no new Do) the instance is eventually stopped and gone "
+             "(measure <= 6 along the watcher loop; fair demonstration run). Tied by concurrent trace acceptance of hook events.",
         note="Trusted: Lean kernel + 3 standard axioms; WaitGroup/mutex/channel-close semantics modelled; the function is assumed to return only after stop is closed; tie = acceptance of this run's event logs.",
         technique="Lean 4 proof (8-clause inductive invariant over an LTS with unbounded holders) + concurrent trace acceptance"),
 })
